@@ -247,11 +247,40 @@ def run_hashset(ck: Check, case: dict):
         ck.count("drift:TorchHashSet tensor layout differs from HashSetM (non-binding)")
 
 
+def run_huge_classic(ck: Check, case: dict):
+    """Classic walks with more than 2^24 rows on a two-vertex graph (one generator: the swap): row i of the output is
+    step i // width of walk i % width, so y[i] = i // width and x[i] = the start state swapped y[i] times."""
+    from cayleypy import CayleyGraph, CayleyGraphDef
+
+    width, length, enc = case["width"], case["length"], case["bit_encoding_width"]
+    g = CayleyGraph(CayleyGraphDef.create([[1, 0]], central_state=[0, 1]), device="cpu", bit_encoding_width=enc)
+    st, out = algos.call(g.random_walks, width=width, length=length, mode="classic", limit_s=300)
+    ck.case(["huge-classic", width, length, enc], True, sample={"op": "huge classic walk", "rows": width * length})
+    ck.count("huge classic walks (> 2^24 rows)")
+    if st != "ok":
+        ck.violation("C07/classic/huge/error", "classic walks raised: " + out, {"case": case})
+        return
+    x, y = (np.asarray(t) for t in out)
+    n = width * length
+    want_y = np.arange(n, dtype=np.int64) // width
+    bad = None
+    if x.shape[0] != n or y.shape[0] != n:
+        bad = f"{x.shape[0]} rows instead of width*length = {n}"
+    elif not np.array_equal(y.astype(np.int64), want_y):
+        i = int(np.nonzero(y.astype(np.int64) != want_y)[0][0])
+        bad = f"y[{i}] = {int(y[i])} but row {i} is step {int(want_y[i])} of its walk"
+    elif not np.array_equal(x.reshape(n, 2)[:, 0].astype(np.int64), want_y % 2):
+        i = int(np.nonzero(x.reshape(n, 2)[:, 0].astype(np.int64) != want_y % 2)[0][0])
+        bad = f"x[{i}] is not the state reached after {int(want_y[i])} swaps"
+    if bad:
+        ck.violation("C07/classic/huge", "classic walk with more than 2^24 rows: " + bad, {"case": case})
+
+
 def main():
     ck = Check("C07")
     if ck.replay:
         body = json.load(open(os.path.join(VERIF, ck.replay) if not os.path.isabs(ck.replay) else ck.replay))
-        ck.guard(run_hashset if body["case"].get("op") == "hashset" else run_case, ck, body["case"])
+        ck.guard(run_hashset if body["case"].get("op") == "hashset" else run_huge_classic if body["case"].get("op") == "huge-classic" else run_case, ck, body["case"])
         ck.finish(rule="replay of one recorded case (fresh random draws)")
     ck.lean_obligations(["CvProps.C07", "CvProps.C07e"], THEOREMS)
     for case in json.load(open(os.path.join(VERIF, "harness", "corpus", "C07.json"))):
@@ -265,6 +294,13 @@ def main():
         if ck.enough():
             break
         ck.guard(run_hashset, ck, gen_hashset_case(ck.rng))
+    # one run above 2^24 rows (float32 holds integers exactly only up to there), a larger one in the thorough tier
+    for width, length in [(ck.rng.choice([4194305, 2**23, 5592407]), ck.rng.choice([3, 4, 5]))] + ([(2**24 + 3, 3), (3, 2**23 + 1)] if ck.thorough else []):
+        if ck.enough():
+            break
+        if width * length <= 2**24:
+            length = 2**24 // width + 2
+        ck.guard(run_huge_classic, ck, {"op": "huge-classic", "width": width, "length": length, "bit_encoding_width": ck.rng.choice(["auto", None])})
     ck.assumptions = ["torch.randint / torch.randperm results are recorded and replayed by the model; the theorems hold for all draws"]
     ck.finish(rule="generated definitions x modes classic / bfs / nbt (history depth 0-3) x widths 1-40 (or wide) x lengths 1-40 (or long) x start default / list / ndarray / tensor x encodings; judged by exact-length reachability sets and Spec distances; plus TorchHashSet operation sequences (1-35 sorted disjoint batches over the whole int64 range) judged as a set and compared with the model HashSetM")
 
